@@ -165,7 +165,11 @@ Record cs_case := mkCs
     x_b64 : option (list Z);                          (* base64-decoding of the wire body *)
     x_plain : list Z;                                 (* the body the client meant *)
     x_honest_enc : bool;                              (* sent as base64(AES-ECB(pad plain)) under the key of the secret *)
+    x_cors : bool;                                    (* eng: the server has rest.WithCors and the request went through the CORS router *)
     x_obs : cs_obs }.
+
+(* the CORS router answers every OPTIONS request itself (204), before routing *)
+Definition cors_pre (c : cs_case) : bool := x_cors c && (r_method (x_req c) =? m_options).
 
 Definition x_rsa_dec (c : cs_case) (kid sc : Z) : option cs_secret :=
   match h_secret (r_hdr (x_req c)) with
@@ -183,6 +187,7 @@ Definition model_cs (c : cs_case) : hout :=
   let E := tab_block (x_etab c) in
   let D := tab_block (x_dtab c) in
   let b64d := fun _ : list Z => x_b64 c in
+  if cors_pre c then mkHout false 204 [] [] false else
   if x_crypt c then
     crypt_handler unknown_length_fix aes E D enc_b64 b64d (x_limit c) (x_key c) (r_clen (x_req c)) (r_body (x_req c)) (x_resp c)
   else
@@ -206,7 +211,7 @@ Definition model_cs (c : cs_case) : hout :=
     end.
 
 Definition model_code (c : cs_case) : Z :=
-  if x_crypt c || negb (x_sig c) then -1 else
+  if x_crypt c || negb (x_sig c) || cors_pre c then -1 else
   match snd (cs_gate unknown_length_fix (x_rsa_dec c) (tab_cmac (x_tags c)) (fun _ => x_digest c)
                      (x_strict c) (x_decs c) (x_tol c) (x_now c) (x_req c)) with
   | Some cd => code_z cd
@@ -244,7 +249,7 @@ Definition agrees_cs (c : cs_case) : bool :=
   (if x_codeobs c then
      match x_jwt c with
      | Some (jc, mt, jnow, cr) =>
-       if jran (snd (authorize (tab_mac mt) [] jc jnow cr)) then model_code c =? c_code o else c_code o =? -1
+       if jran (snd (authorize (tab_mac mt) [] jc jnow cr)) || cors_pre c then model_code c =? c_code o else c_code o =? -1
      | None => model_code c =? c_code o
      end
    else true) &&
@@ -406,13 +411,14 @@ Record srv_case := mkSrv
     v_groups : list group;
     v_tabs : srv_tabs;
     v_bindok : bool;                               (* observed: Start got past bindRoutes *)
+    v_cors : bool;                                 (* rest.WithCors, and the requests went through the CORS router *)
     v_reqs : list (sreq * nat * srv_obs) }.        (* request, index of the group it is aimed at, observation *)
 
 Definition model_srv (c : srv_case) : bool * list sout :=
   let t := v_tabs c in
-  run_server unknown_length_fix (fun k => memz k (v_keyok c)) (tab_mac (t_mac t)) (tabs_rsa t) (tab_cmac (t_cmac t)) (tabs_sha t)
+  run_server_cors unknown_length_fix (fun k => memz k (v_keyok c)) (tab_mac (t_mac t)) (tabs_rsa t) (tab_cmac (t_cmac t)) (tabs_sha t)
              (tabs_aes t) (tabs_e t) (tabs_d t) enc_b64 (tabs_b64 t)
-             (v_limit c) (v_groups c) (map (fun x => fst (fst x)) (v_reqs c)).
+             (v_cors c) (v_limit c) (v_groups c) (map (fun x => fst (fst x)) (v_reqs c)).
 
 Definition resp_match2 (m raw : list Z) (dec : option (list Z)) : bool :=
   match m with
@@ -487,8 +493,10 @@ Definition prop_srv1 (c : srv_case) (x : sreq * nat * srv_obs) : bool :=
           valid for ITS OWN group's configuration *)
        route_opt_eqb (so_route o) (if so_ran o then Some (q_route q) else None) && jwt_ok && sig_ok
      else
-       (if negb jwt_ok && v_bindok c then so_status o =? 401 else true) &&
-       negb ((so_uerr o =? 0) && negb jwt_ok && v_bindok c))
+       (* a request the CORS router answers itself (OPTIONS behind rest.WithCors) never reaches the gate *)
+       let reaches := negb (v_cors c && (r_method (q_cs q) =? m_options)) in
+       (if negb jwt_ok && v_bindok c && reaches then so_status o =? 401 else true) &&
+       negb ((so_uerr o =? 0) && negb jwt_ok && v_bindok c && reaches))
   end.
 
 Definition prop_srv (c : srv_case) : bool := forallb (prop_srv1 c) (v_reqs c).
@@ -529,7 +537,7 @@ Definition prop_big (c : big_case) : bool :=
 
 Inductive case :=
 | CBig (c : big_case)
-| CJwt (c : jcfg) (t : mactab) (reqs : list (Z * cred)) (obs : list jobs)
+| CJwt (c : jcfg) (t : mactab) (reqs : list hreq) (obs : list jobs)      (* whole requests: method, other headers, clock, credential *)
 | CTp (rs : bool) (t : mactab) (calls : list tp_call) (obs : list Z)
 | CSrv (c : srv_case)
 | CCs (c : cs_case)
@@ -538,8 +546,8 @@ Inductive case :=
 Definition agrees (c : case) : bool :=
   match c with
   | CJwt jc t reqs obs =>
-    forallb (fun rq => tab_complete t jc (snd rq)) reqs &&
-    forall2b jres_eqb (run_jwt_err (tab_mac t) [] jc reqs) obs
+    forallb (fun rq => tab_complete t jc (hq_cred rq)) reqs &&
+    forall2b jres_eqb (run_jwt_req (tab_mac t) [] jc reqs) obs
   | CTp rs t calls obs =>
     forallb (fun cl => tab_complete t (fst (fst cl)) (snd cl)) calls &&
     list_eqb Z.eqb (run_parser (tab_mac t) rs [] calls) obs
@@ -551,7 +559,7 @@ Definition agrees (c : case) : bool :=
 
 Definition prop_ok (c : case) : bool :=
   match c with
-  | CJwt jc t reqs obs => forall2b (jwt_prop1 t jc) reqs obs
+  | CJwt jc t reqs obs => forall2b (fun q => jwt_prop1 t jc (hq_core q)) reqs obs
   | CTp _ t calls obs => forall2b (tp_prop1 t) calls obs
   | CSrv x => prop_srv x
   | CBig x => prop_big x
@@ -569,7 +577,7 @@ Inductive mobs :=
 
 Definition model_obs (c : case) : mobs :=
   match c with
-  | CJwt jc t reqs _ => MJwt (run_jwt_err (tab_mac t) [] jc reqs)
+  | CJwt jc t reqs _ => MJwt (run_jwt_req (tab_mac t) [] jc reqs)
   | CTp rs t calls _ => MTp (run_parser (tab_mac t) rs [] calls)
   | CSrv x => MSrv (model_srv x)
   | CBig x => MBig (big_wire_len x) (big_exceeds (g_limit x) (big_wire_len x)) (big_decrypts x)
